@@ -1,9 +1,9 @@
-(* PV.C03.Refuted — after the four fix: commits in /repo (19afc56 replace_all in place, 62f6c0f update_abbr_record keeps
+(* PV.C03.Refuted — counter-models of the two OPEN findings of the option-record layer (end of file) and, after the four fix: commits in /repo (19afc56 replace_all in place, 62f6c0f update_abbr_record keeps
    matching REPLACE records, a3ce367 update_sizes finds / places $SIZES before $PROBLEM) no statement of C03 is refuted
    any more; the former counter-model witnesses are kept as regression examples of the repaired behaviour. *)
 From Coq Require Import String Ascii.
 From Coq Require Import List Bool NArith PArith Arith.
-From PV Require Import Base.PyData C03.Model C03.Check.
+From PV Require Import Base.PyData C03.Model C03.Check C03.Proofs6.
 Import ListNotations.
 
 (* records with identity, name and text *)
@@ -94,3 +94,33 @@ Example sizes_append_fixed :
   option_map (map xid) (update_sizes_records xrec xname xid xorder (tl sizes_stream) true sizes_new) = Some [5; 2; 3; 4]%positive /\
   option_map (fun l => sizes_ok_names false (map xname l)) (update_sizes_records xrec xname xid xorder (tl sizes_stream) true sizes_new) = Some true.
 Proof. repeat split; vm_compute; reflexivity. Qed.
+
+(* ------------------------------------------------------------------------------------------------
+   OPEN findings of the option-record layer.  Rule ids: option 10, KEY 11, VALUE 12, EQUAL 13, WS 1. *)
+Definition opt_est : list node :=          (* root children of '$ESTIMATION METHOD=1 INTER' *)
+  [ Tok 1 None (T " ");
+    Tree 10 None [Tok 11 None (T "METHOD"); Tok 13 None (T "="); Tok 12 None (T "1")];
+    Tok 1 None (T " ");
+    Tree 10 None [Tok 11 None (T "INTER")] ].
+
+(* C03-SETOPTION-VALUELESS: set_option on an option without '=value' finds no VALUE child to replace and returns the record
+   unchanged: the guard of Properties.set_option_readback (has_rule VALUE) is necessary. *)
+Theorem set_option_valueless_refuted :
+  exists (ch : list node) (key v : text),
+    (exists o cc, find (keyed 10 11 key) ch = Some o /\ o = Tree 10 None cc /\ has_rule 12 cc = false) /\
+    set_option 10 11 12 13 1 ch key v = Some ch.
+Proof.
+  exists opt_est, (T "INTER"), (T "x"). split; [|vm_compute; reflexivity].
+  eexists. eexists. split; [vm_compute; reflexivity|]. split; reflexivity.
+Qed.
+
+(* C03-REMOVE-OPTION-FIRST: '$INPUT(A) ID' — the option is the first child of the root, new_children is still empty when it
+   is met, new_children[-1] raises IndexError: the guard of Properties.remove_option_total is necessary. *)
+Theorem remove_option_first_refuted :
+  exists (ch : list node) (key : text),
+    (exists c tl, ch = c :: tl /\ is_target 10 11 key c = Some true) /\ remove_option 10 11 1 ch key = None.
+Proof.
+  exists [Tree 10 None [Tok 11 None (T "(A)")]; Tok 1 None (T " "); Tree 10 None [Tok 11 None (T "ID")]; Tok 3 None (T "
+")], (T "(A)").
+  split; [eexists; eexists; split; [reflexivity | vm_compute; reflexivity] | vm_compute; reflexivity].
+Qed.
